@@ -324,6 +324,9 @@ pub fn run(tier: Tier) -> Report {
         ("two files", vec!["55 12\n56 13\n".into(), "# second file\n57 14\n58 15\n".into()]),
         ("extra columns", vec!["55 12 100 2001 7\n56 13 0 2010.5 8 9 10\n".into()]),
     ];
+    // negative values of -z / -t (written as separate arguments, as a user would)
+    optsets.push(Opts { inv: false, roundtrip: false, z: Some(-30.), t: None, d: Some(3), dim: Some(3) });
+    optsets.push(Opts { inv: true, roundtrip: false, z: Some(-30.5), t: Some(-1000.25), d: Some(3), dim: Some(4) });
     let seen = Mutex::new(HashSet::new());
     let (nops, nshapes) = (operations.len(), shapes.len());
     let jobs: Vec<(usize, usize, usize)> = (0..optsets.len()).flat_map(|o| (0..nops).flat_map(move |p| (0..nshapes).map(move |s| (o, p, s)))).collect();
